@@ -17,7 +17,8 @@
 (*   base     ids absolute | relative to @base                             *)
 (*   embed    children written inside their parent | listed flat           *)
 (*   wrapper  {"@graph": [...]} | top-level array                          *)
-(*   order    node order reversed or not;  keyOrder likewise               *)
+(*   order    node order reversed or not;  keyOrder: the keys of every     *)
+(*            object AND the values of every key in reverse order          *)
 (*   arrays   a single value written alone | as a one-element array        *)
 (*   typeArr  a single @type as string | as array                          *)
 (*   repeat   a value written twice in its array                           *)
@@ -64,7 +65,8 @@ Obj(n, part, G, c) ==
       ps  == CASE part = 0 -> ps1 [] part = 1 -> SubSeq(ps1, 1, half) [] part = 2 -> SubSeq(ps1, half + 1, Len(ps1))
       vals(p) == LET os == SetToSeq({e[3] : e \in {e \in G.edges : e[1] = n /\ e[2] = p}})
                      vs == [i \in 1..Len(os) |-> ValueForm(n, p, os[i], G, c)]
-                     vr == IF c.repeat THEN Append(vs, vs[1]) ELSE vs
+                     vq == IF c.keyOrder THEN Rev(vs) ELSE vs
+                     vr == IF c.repeat THEN Append(vq, vq[1]) ELSE vq
                  IN IF Len(vr) = 1 /\ ~c.arrays THEN <<"single", vr[1]>> ELSE <<"array", vr>>
       ts == SetToSeq(G.types[n])
   IN [id |-> IdForm(n, c),
